@@ -14,8 +14,8 @@ from hypothesis import strategies as st
 
 from ..common import Result, chash, jsonable, scratch_dir
 from ..hyp import campaign
-from ..lib import READ_APIS, new_table, no_pruning, run_read, spy_pruning
-from ..reader import DirFS, read_view, rows_multiset
+from ..lib import READ_APIS, new_table, no_pruning, run_read, setup_append, spy_pruning
+from ..reader import DirFS, Undecoded, read_view, rows_multiset
 from .. import tbl
 
 PROP = "C13"
@@ -117,7 +117,7 @@ def run_exhaustive(task):
     with scratch_dir("c13e") as d:
         t = new_table(d + "/t", fields)
         for fid, ms in enumerate(msets):
-            t.append_records([{"x": vals[i], "fid": fid} for i in ms])
+            setup_append(t, [{"x": vals[i], "fid": fid} for i in ms])
         fl = _filters(lits)
         for idx, cond in enumerate(fl):
             if idx % task["nshard"] != task["shard"]:
@@ -162,7 +162,7 @@ def check_rand(case):
     with scratch_dir("c13r") as d:
         t = new_table(d + "/t", fields)
         for fid, rows in enumerate(case["files"]):
-            t.append_records([dict(r, fid=fid) for r in rows])
+            setup_append(t, [dict(r, fid=fid) for r in rows])
         flt = case["filter"]
         a, b, skipped = _compare(t, flt, case["api"], case["verify"], case["columns"])
         out["nontrivial"] = skipped > 0
@@ -211,7 +211,7 @@ def check_bounds(case):
 
     with scratch_dir("c13b") as d:
         t = new_table(d + "/t", case["fields"])
-        t.append_records(case["rows"])
+        setup_append(t, case["rows"])
         stored = t.scan()  # values as represented by the declared type
         view = read_view(DirFS(d + "/t"), rows=False)
         e = view["snapshots"][-1]["entries"][0]
@@ -228,6 +228,9 @@ def check_bounds(case):
                     if ind is not None:
                         out["violations"].append((f"bounds/{f['type']}/phantom", f"{side} bound {ind!r} for an all-null column"))
                     continue
+                if isinstance(ind, Undecoded):
+                    out["labels"].append("independent-decode-unavailable")
+                    ind = libv  # unknown (internal) encoding: judge what the library's decoder - and so its pruner - sees
                 if only_nan:
                     ok = ind is None or (isinstance(ind, float) and math.isnan(ind))
                     okl = libv is None or (isinstance(libv, float) and math.isnan(libv))
@@ -259,7 +262,7 @@ def replay(case):
         with scratch_dir("c13p") as d:
             t = new_table(d + "/t", fields)
             for fid, vals in enumerate(case["files"]):
-                t.append_records([{"x": v, "fid": fid} for v in vals])
+                setup_append(t, [{"x": v, "fid": fid} for v in vals])
             flt = {k: (tuple(v) if isinstance(v, list) and len(v) == 2 and isinstance(v[0], str) else v) for k, v in case["filter"].items()}
             flt = {k: ((v[0], tuple(v[1])) if isinstance(v, tuple) and v[0] == "between" else v) for k, v in flt.items()}
             a, b, _ = _compare(t, flt, "scan", None)
